@@ -221,6 +221,26 @@ func TestVerifC04(t *testing.T) {
 				twinConservation(w, twin, rep, g)
 				s.SubmitGen(g)
 			}
+			// a contract call failing in the middle of its execution, followed by a successful
+			// contract tx in the same block: nothing may leak from the failed one
+			if i%15 == 7 {
+				for _, seq := range w.GasSweepSeqs(s.R, twin, 6) {
+					tr, err := w.TwinSeq(twin, seq)
+					if err != nil || tr == nil || !tr.Included {
+						continue
+					}
+					rep.Eval(1)
+					rep.Count("twin_sequences(fail-then-success)", 1)
+					if len(tr.Receipts) == 2 && !tr.Receipts[0].Success && tr.Receipts[1].Success {
+						rep.Count("twin_sequences_failed_midway_then_succeeded", 1)
+					}
+					l0, l1 := LedgerOf(tr.Post0), LedgerOf(tr.Post1)
+					if l1.Total.Cmp(l0.Total) > 0 {
+						rep.Violation("tx-sequence-mints:contract-failure-then-success", fmt.Sprintf("a block with a contract call that fails mid-execution followed by a successful contract tx ends with a larger total than the same block without them: %v > %v", l1.Total, l0.Total),
+							map[string]interface{}{"block": DescribeBlock(tr.B1), "diff": LedgerDiff(l0, l1)})
+					}
+				}
+			}
 			st := w.View().AppState.State
 			epochBlockBefore := st.EpochBlock()
 			res := s.Step()
